@@ -93,26 +93,9 @@ fn c09_argtype_quoted() {
     kani::cover!(n == 3 && b[0] == b'7' && b[1] == b'0', "quoted digits");
 }
 
-// numeric literals too large for the machine type: 20 characters, each digit 0 or 9, optional sign
-#[kani::proof]
-#[kani::unwind(24)]
-#[kani::stub(alloc::fmt::format, fmt_stub)]
-#[kani::stub(chrono::DateTime::<FixedOffset>::parse_from_rfc3339, rfc3339_stub)]
-fn c09_argtype_int_overflow() {
-    let c: [bool; 20] = kani::any();
-    let mut b = [b'0'; 20];
-    let mut i = 1;
-    while i < 20 { if c[i] { b[i] = b'9'; } i += 1; }
-    b[0] = if c[0] { b'-' } else { b'9' };
-    let s: &str = unsafe { core::str::from_utf8_unchecked(&b) };
-    let ty = get_arg_type(s, false);
-    let r = parse_dataoperator("=", s, ty);
-    kani::cover!(r.is_ok(), "fits");
-    core::mem::forget(r);
-}
-
-// concrete witnesses (NO symbolic input - these are ordinary tests run through the same tool chain, kept because the
-// symbolic 20-digit harness above is thorough-tier only): literals just beyond the integer range, both signs
+// (a symbolic 20-digit literal does not finish: > 20 min in the integer parser; see the concrete witnesses below)
+// concrete witnesses (NO symbolic input - these are ordinary tests run through the same tool chain, kept because a
+// symbolic 20-digit harness does not finish): literals just beyond the integer range, both signs
 macro_rules! overflow_witness {
     ($name:ident, $lit:expr) => {
         #[kani::proof]
